@@ -4,11 +4,13 @@ EXTENDS Commitments
 L3 == {"a", "b", "c"}
 L2 == {"a", "b"}
 
-\* thorough tier: one receipt with up to two events, and every pair of receipts without events or with one
-\* (the second receipt must start where the first one ended)
-BigContainers(fmt) == SeqsUpTo(ReceiptsOf(fmt, 2), 1)
-                      \cup {<<r1, r2>> : r1 \in {r \in ReceiptsOf(fmt, 1) : r.status = "SUCCESS" /\ r.addr = 1 /\ r.ret = <<>>},
-                                         r2 \in {r \in ReceiptsOf(fmt, 1) : r.status = "ERROR" /\ r.fee = <<7>> /\ r.bloom = <<>>}}
+\* thorough tier: one receipt with up to two events (statuses SUCCESS / ERROR), one receipt of every status with up to
+\* one event, and pairs of receipts (the second receipt must start where the first one ended)
+BigContainers(fmt) ==
+       {<<r>> : r \in {x \in ReceiptsOf(fmt, 2) : x.status \in {"SUCCESS", "ERROR"}}}
+  \cup SeqsUpTo(ReceiptsOf(fmt, 1), 1)
+  \cup {<<r1, r2>> : r1 \in {r \in ReceiptsOf(fmt, 1) : r.status = "SUCCESS" /\ r.addr = 1 /\ r.ret = <<>> /\ r.fee = <<7>>},
+                     r2 \in {r \in ReceiptsOf(fmt, 1) : r.status = "ERROR" /\ r.fee = <<7>> /\ r.bloom = <<>> /\ r.ret = <<7>>}}
 
 view == cur
 \* ACTION_CONSTRAINT printing every examined case with the model's prediction (generation configs only)
